@@ -325,6 +325,66 @@ theorem process_rkx (s : State) (u : Nat) (h : Hdr) : RKX u s (processMessage cf
             · exact (rkx_upd s u (fun m => { m with pid := bufI32 s.buf 0 }) (fun _ => rfl)).trans (sendInfo_rk cfg _ _ u)
             · exact (logTop_rk cfg _ 10 s).trans (fwdTop_rk cfg _ _ _)
 
+/-! ## the requester's own entry -/
+
+theorem rkp_gone {p : Nat → Bool} {s s' : State} (h : RKP p s s') {u : Nat} (hp : p u = false) (hg : s.find u = none) :
+    s'.find u = none := by
+  cases h' : s'.find u with
+  | none => rfl
+  | some m' => obtain ⟨m, hm, _⟩ := h u m' hp h'; rw [hg] at hm; cases hm
+
+omit cfg in
+theorem removeModule_gone (cfg : Cfg) (fwd : Fwd) (s : State) (u : Nat) : (removeModule cfg fwd s u).find u = none := by
+  unfold removeModule
+  split
+  · assumption
+  · exact find_filter_eq _ _
+
+/-- the two outcomes of a connect request from a connection that is not yet connected: refused — the requester is
+    removed —, or accepted — after the name-clash loop (which keeps every entry) the requester's entry, as the request
+    filled it in, is marked connected (and given the dynamic id, if one was asked for) -/
+theorem connectModule_cases (s : State) (u : Nat) (h : Hdr) (m : Module) (hm : s.find u = some m) (hnc : m.connected = false) :
+    (∃ s2, connectModule cfg s u h = (removeModule cfg (fwdTop cfg) s2 u, false)) ∨
+    (∃ nm s2 F, (if h.mtype == cfg.mtConnectV2 then cstr s.buf 12 32 else some m.name) = some nm ∧
+      RK (s.upd u (setAll cfg s.buf h nm)) s2 ∧
+      (∀ x : Module, (F x).uid = x.uid ∧ (F x).pid = x.pid ∧ (F x).isLogger = x.isLogger ∧ (F x).connected = true ∧
+        ((setAll cfg s.buf h nm m).modId ≠ 0 → (F x).modId = x.modId)) ∧
+      (connectModule cfg s u h).2 = true ∧ (connectModule cfg s u h).1.mods = (s2.upd u F).mods) := by
+  have hl : lookupMod s u = m := by unfold lookupMod; rw [hm]; rfl
+  unfold connectModule
+  simp only [hl, hnc, Bool.false_eq_true, if_false]
+  cases hn : (if (h.mtype == cfg.mtConnectV2) = true then cstr s.buf 12 32 else some m.name) with
+  | none => left; exact ⟨_, rfl⟩
+  | some nm =>
+    simp only
+    by_cases hz : ((setAll cfg s.buf h nm m).modId != 0) = true
+    · simp only [hz, if_true]
+      by_cases hrange : (decide ((setAll cfg s.buf h nm m).modId < 1) || decide ((setAll cfg s.buf h nm m).modId > cfg.dynStart)) = true
+      · simp only [hrange, if_true]; left; exact ⟨_, rfl⟩
+      · simp only [hrange, Bool.false_eq_true, if_false]
+        have hcl := clashLoop_rk cfg (fun _ => false) (setAll cfg s.buf h nm m)
+          ((s.upd u (setAll cfg s.buf h nm)).mods.filter (·.uid != u)) (s.upd u (setAll cfg s.buf h nm))
+        generalize clashLoop cfg (setAll cfg s.buf h nm m)
+          ((s.upd u (setAll cfg s.buf h nm)).mods.filter (·.uid != u)) (s.upd u (setAll cfg s.buf h nm)) = r at hcl ⊢
+        obtain ⟨s2, cl⟩ := r
+        dsimp only at hcl ⊢
+        cases cl with
+        | true => simp only [if_true]; left; exact ⟨_, rfl⟩
+        | false =>
+          simp only [Bool.false_eq_true, if_false]
+          right
+          exact ⟨nm, s2, fun m => { m with connected := true }, rfl, hcl, fun x => ⟨rfl, rfl, rfl, rfl, fun _ => rfl⟩, by trivial, by trivial⟩
+    · simp only [hz, Bool.false_eq_true, if_false]
+      cases ha : assignId cfg (s.upd u (setAll cfg s.buf h nm)) with
+      | none => simp only; left; exact ⟨_, rfl⟩
+      | some idoff =>
+        obtain ⟨id, off⟩ := idoff
+        simp only
+        right
+        refine ⟨nm, { (s.upd u (setAll cfg s.buf h nm)) with nextDyn := off }, fun m => { m with modId := id, connected := true },
+          rfl, rkp_same rfl, fun x => ⟨rfl, rfl, rfl, rfl, fun hne => ?_⟩, by trivial, by trivial⟩
+        exact absurd (by simpa using hz) hne
+
 end top
 
 end Pyrtma.Mgr
